@@ -370,10 +370,43 @@ def _regex_for(rng, w, full):
     return p if ok else re.escape(w)
 
 
+# probability that a bound of an INTEGER field is written as a float: integral
+# (3.0) or with a fraction (2.5: "at least 2.5" is a perfectly good constraint
+# on integer data, satisfied by 3, 4, ...)
+P_FLOAT_BOUND = 0.3
+FRACTIONS = [0.5, 0.5, 0.25, 0.75, 0.1, 0.9]
+
+
+def _float_bound(rng, v, side, force=False):
+    """bound ``v`` (an int the witness satisfies on ``side``) rewritten as a
+    float that admits exactly the same integers or more on the far side of
+    the witness: lower bounds move down by a fraction, upper bounds up"""
+    r = rng.random()
+    if not force and r >= P_FLOAT_BOUND:
+        return v
+    if abs(v) >= 2 ** 52:
+        return v                # floats are no longer exact out there
+    if not force and r < 0.1:
+        return float(v)
+    f = rng.choice(FRACTIONS)
+    return v - f if side == "lo" else v + f
+
+
+def is_fractional(x):
+    return isinstance(x, float) and not x.is_integer()
+
+
 def gen_check(rng, kind, w, cls, dtype, step, base_ok=True):
     """one check spec of ``kind`` that the witness ``w`` satisfies, or None"""
     nb = lambda d: shift(w, cls, d, step)   # noqa: E731
     lo_hi = INT_RANGE.get(dtype)
+    force_frac = False
+    if kind == "fbound":
+        # an inclusive bound with a fraction on an integer field (the strategy
+        # has to round it INTO the admitted side, or say that it cannot)
+        assert cls == "int"
+        kind = rng.choice(["ge", "le", "in_range", "gt", "lt"])
+        force_frac = True
 
     def inr(x):
         """keep integer arguments inside the dtype's range most of the time"""
@@ -382,7 +415,10 @@ def gen_check(rng, kind, w, cls, dtype, step, base_ok=True):
         return lo_hi[0] <= x <= lo_hi[1] or rng.random() < 0.1
 
     if kind == "eq":
-        return {"k": "eq", "a": {"value": enc(w)}}
+        v = w
+        if cls == "int" and abs(w) < 2 ** 52 and rng.random() < 0.12:
+            v = float(w)        # the same number, written as a float
+        return {"k": "eq", "a": {"value": enc(v)}}
     if kind == "ne":
         if cls == "bool":
             return {"k": "ne", "a": {"value": (not w)}}
@@ -390,6 +426,12 @@ def gen_check(rng, kind, w, cls, dtype, step, base_ok=True):
             v = rng.choice([x for x in str_variants(rng, w) if x != w] or [w + "q"])
         else:
             v = nb(rng.choice([-3, -2, -1, 1, 2, 3]))
+            if cls == "int" and abs(v) < 2 ** 52:
+                r = rng.random()
+                if r < 0.1:
+                    v = float(v)
+                elif r < 0.2:
+                    v = v + rng.choice(FRACTIONS)     # no integer equals it
         return {"k": "ne", "a": {"value": enc(v)}}
     if kind in ("gt", "ge", "lt", "le"):
         d = rng.choice([0, 0, 1, 1, 2, 5, 40]) if kind in ("ge", "le") \
@@ -401,6 +443,8 @@ def gen_check(rng, kind, w, cls, dtype, step, base_ok=True):
                 v = z
         if not inr(v):
             return None
+        if cls == "int":
+            v = _float_bound(rng, v, "lo" if kind in ("gt", "ge") else "hi", force_frac)
         name = "min_value" if kind in ("gt", "ge") else "max_value"
         return {"k": kind, "a": {name: enc(v)}}
     if kind == "in_range":
@@ -416,6 +460,17 @@ def gen_check(rng, kind, w, cls, dtype, step, base_ok=True):
             return None
         imin = True if da == 0 else rng.random() < 0.45
         imax = True if db == 0 else rng.random() < 0.45
+        if cls == "int":
+            if force_frac:
+                if rng.random() < 0.7:
+                    imin = imax = True
+                which = rng.choice(["lo", "hi", "both"])
+                if which != "hi":
+                    a = _float_bound(rng, a, "lo", True)
+                if which != "lo":
+                    b = _float_bound(rng, b, "hi", True)
+            else:
+                a, b = _float_bound(rng, a, "lo"), _float_bound(rng, b, "hi")
         return {"k": "in_range", "a": {"min_value": enc(a), "max_value": enc(b),
                                        "include_min": imin, "include_max": imax}}
     if kind in ("isin", "notin"):
@@ -437,6 +492,18 @@ def gen_check(rng, kind, w, cls, dtype, step, base_ok=True):
                 vals.insert(rng.randrange(len(vals) + 1), w)
             elif not vals:
                 return None
+            if cls == "int" and all(abs(x) < 2 ** 52 for x in vals):
+                # value lists often come from float data: the same integers
+                # written as floats, or a list that also holds numbers with a
+                # fraction (no integer equals those: they admit / forbid nothing)
+                r = rng.random()
+                if r < 0.1:
+                    vals = [float(x) for x in vals]
+                elif r < 0.22:
+                    for _ in range(rng.choice([1, 1, 2])):
+                        x = nb(rng.randint(-6, 6)) + rng.choice(FRACTIONS)
+                        if lo_hi[0] <= x <= lo_hi[1]:   # representable after a cast
+                            vals.insert(rng.randrange(len(vals) + 1), x)
         name = "allowed_values" if kind == "isin" else "forbidden_values"
         return {"k": kind, "a": {name: enc(vals)}}
     if kind == "str_matches":
@@ -572,7 +639,7 @@ def gen_field(rng, dtype=None, name=None, n_checks=None, p_custom=0.18,
     for c in chain:      # isin lists contribute candidates as well
         if c["k"] == "isin":
             cands = cands + [x for x in dec(c["a"]["allowed_values"])
-                             if not any(x == y for y in cands)]
+                             if not any(x == y for y in cands) and not is_fractional(x)]
     support = chain_support(chain, cands)
     assert support >= 1, (dtype, w, chain)
     f = {"dtype": dtype, "cls": cls, "witness": enc(w), "checks": chain,
@@ -658,6 +725,15 @@ def gen_contradiction(rng, dtype=None):
         pats.append(("int-open-interval-empty",
                      [{"k": "in_range", "a": {"min_value": nb(0), "max_value": nb(1),
                                               "include_min": False, "include_max": False}}]))
+    if cls == "int" and abs(w) < 2 ** 52:
+        # no integer lies between two fractions of the same unit interval
+        fa, fb = rng.choice([(0.25, 0.75), (0.5, 0.5), (0.1, 0.9)])
+        pats.append(("int-fractional-interval-empty",
+                     [{"k": "in_range", "a": {"min_value": w + fa, "max_value": w + fb,
+                                              "include_min": True, "include_max": True}}]))
+        pats.append(("int-fractional-ge-le-empty",
+                     [{"k": "ge", "a": {"min_value": w + fa}},
+                      {"k": "le", "a": {"max_value": w + fb}}]))
     if cls == "bool":
         pats += [("eq-eq", [{"k": "eq", "a": {"value": True}}, {"k": "eq", "a": {"value": False}}]),
                  ("isin-notin", [{"k": "isin", "a": {"allowed_values": [w]}},
@@ -791,6 +867,9 @@ def gen_case(rng, kind=None, family=None):
     fkw = {}
     if rng.random() < 0.07:
         fkw = {"dtype": pick_dtype(rng, ["int", "float"]), "force": ("c_strat",)}
+    elif rng.random() < 0.08:
+        # integer field with a fractional bound (float argument)
+        fkw = {"dtype": rng.choice(DTYPES["int"]), "force": ("fbound",)}
     if kind == "series":
         f = gen_field(rng, name=rng.choice([None, "s"]), **fkw)
         case["fields"] = [f]
@@ -876,7 +955,7 @@ def sibling(rng, case):
         for c in f["checks"]:
             if c["k"] == "isin":
                 cands = cands + [x for x in dec(c["a"]["allowed_values"])
-                                 if not any(x == y for y in cands)]
+                                 if not any(x == y for y in cands) and not is_fractional(x)]
         f["support"] = max(1, chain_support(f["checks"], cands))
     _reclip(case)
     fix_aggregates(rng, case)
@@ -1009,10 +1088,31 @@ def gen_frame(rng, case, fkw=None):
         fields[:] = [gen_field(rng, dt, name=f"c{i}") for i in range(ncols)]
         case["df_dtype"] = dt
     case["n_regex"] = rng.choice([1, 1, 2]) if any(f["regex"] for f in fields) else 1
+    frame_options(rng, case, 0.25)
     uniq = [f for f in fields if f["unique"] or
             (case["df_unique"] and f["name"] in case["df_unique"])]
     pseudo = [dict(f, unique=True) for f in uniq]
     case["size"] = _size_for(rng, pseudo + _ix_fields(case["index"]))
+
+
+def frame_options(rng, case, p_ordered):
+    """schema-wide options that constrain the SET and ORDER of the columns of
+    the frame: ordered=True (columns in declaration order, regex columns
+    expanded in place), strict=True (no column the schema does not declare),
+    strict="filter" (undeclared columns are dropped)"""
+    case["ordered"] = rng.random() < p_ordered
+    case["strict"] = rng.choice([False, False, False, True, True, "filter"])
+
+
+def regex_before_plain(case):
+    """a regex column is declared ahead of a plainly named one"""
+    seen = False
+    for f in case["fields"]:
+        if f.get("regex"):
+            seen = True
+        elif seen:
+            return True
+    return False
 
 
 # --------------------------------------------------------------------------
@@ -1093,6 +1193,7 @@ def gen_regex_case(rng, j):
     rng.shuffle(fields)         # the regex columns are not always the first ones
     case["fields"] = fields
     case["index"] = gen_index_spec(rng) if rng.random() < 0.2 else None
+    frame_options(rng, case, 0.4)
     size = rng.choice([2, 3, 3, 4, 4, 5, 5, 5, None, 1, 0])
     case["size"] = _clip_size(rng, size, fields + _ix_fields(case["index"]), case["df_unique"])
     fix_aggregates(rng, case)
@@ -1297,7 +1398,8 @@ def build(case):
     return pa.DataFrameSchema(
         cols, checks=[build_check(c) for c in case.get("df_checks", [])],
         index=build_index(case.get("index")), unique=case.get("df_unique"),
-        dtype=case.get("df_dtype"))
+        dtype=case.get("df_dtype"), ordered=bool(case.get("ordered")),
+        strict=case.get("strict") or False)
 
 
 # --------------------------------------------------------------------------
@@ -1320,7 +1422,8 @@ def _case(kind, fields, size, family="sat", **kw):
         c["index"] = kw.pop("index", None)
     if kind == "frame":
         c.update(index=kw.pop("index", None), df_checks=kw.pop("df_checks", []),
-                 df_unique=kw.pop("df_unique", None), df_dtype=None)
+                 df_unique=kw.pop("df_unique", None), df_dtype=None,
+                 ordered=kw.pop("ordered", False), strict=kw.pop("strict", False))
     if family != "sat":
         for f in fields:
             f["pattern"] = kw.get("pattern", "directed")
@@ -1396,4 +1499,46 @@ def directed_cases():
                            regex=True, witness=1),
                         _F("datetime64[ns]", nullable=True, unique=True, name=r"d\.x+", regex=True,
                            witness=pd.Timestamp("2020-01-01"))], 4, n_regex=2),
+        # schema-wide column order / column set: regex columns are expanded in
+        # place, ahead of, between and behind plainly named columns
+        _case("frame", [_F("float64", name=r"m_\d", regex=True, witness=0.5),
+                        _F("int64", name="id", witness=1)], 2, ordered=True),
+        _case("frame", [_F("int64", name="a", witness=1),
+                        _F("str", name="t_[a-c]", regex=True, witness="ab"),
+                        _F("float64", name="z", witness=0.5),
+                        _F("bool", name=r"f\d", regex=True, witness=True)], 2, n_regex=2,
+              ordered=True, strict=True),
+        _case("frame", [_F("int64", name="b", witness=1), _F("int64", name="a", witness=1),
+                        _F("int64", name="B", witness=1)], 2, ordered=True, strict="filter"),
+        # integer fields bounded by numbers with a fraction, both signs, both
+        # sides: whatever rounding the base strategy applies has to stay inside
+        # the admitted set (or the strategy says that it cannot serve the schema)
+        _case("series", [_F("int64", [chk("ge", min_value=2.5)], witness=3)], 3),
+        _case("series", [_F("int64", [chk("ge", min_value=-2.5)], witness=-2)], 3),
+        _case("column", [_F("int32", [chk("le", max_value=2.5)], name="c", witness=2)], 3),
+        _case("index", [_F("int16", [chk("le", max_value=-2.5)], witness=-3)], 3),
+        _case("frame", [_F("uint8", [chk("in_range", min_value=0.5, max_value=9.5,
+                                         include_min=True, include_max=True)],
+                           name="a", witness=1)], 3),
+        _case("frame", [_F("Int64", [chk("in_range", min_value=-9.5, max_value=-0.5,
+                                         include_min=True, include_max=True)], nullable=True,
+                           name="a", witness=-1)], 3),
+        _case("multiindex", [_F("int64", [chk("gt", min_value=0.25)], name="a", witness=1),
+                             _F("int8", [chk("lt", max_value=-0.25)], name="b", witness=-1)], 2),
+        _case("series", [_F("int64", [chk("in_range", min_value=2.25, max_value=2.75,
+                                          include_min=True, include_max=True)])], 2,
+              family="contradiction", pattern="directed:int-fractional-interval-empty"),
+        # a chained str_matches filters its parent with the SAME anchoring the
+        # check validates with (the parents admit values that only contain the
+        # pattern further in)
+        _case("series", [_F("str", [chk("isin", allowed_values=["bb", "ab", "xbb", "b"]),
+                                    chk("str_matches", pattern="b+")], witness="bb", support=2)], 2),
+        _case("frame", [_F("str", [chk("str_contains", pattern="k"),
+                                   chk("str_matches", pattern="k[a-z]?")], name="a",
+                           witness="k")], 2),
+        # value lists of integer fields that also hold numbers with a fraction
+        _case("series", [_F("int64", [chk("isin", allowed_values=[1, 2.5, -3.5])], witness=1,
+                            support=1)], 2),
+        _case("index", [_F("uint8", [chk("notin", forbidden_values=[0.5, 1.0]),
+                                     chk("ne", value=2.5)], witness=3)], 3),
     ]
